@@ -41,12 +41,17 @@ def _protocol(case: dict):  # noqa: ANN202
     return make_protocol([(float(d), {k: float(v) for k, v in pv.items()}) for d, pv in case["protocol"]])
 
 
-def run_scan(case: dict, model, sched: dict):  # noqa: ANN001, ANN201
-    """Run the scan under one schedule; returns the scan result object."""
+def run_scan(case: dict, model, sched: dict, cache_dir=None, rows=None):  # noqa: ANN001, ANN201
+    """Run the scan under one schedule; returns the scan result object.
+    cache_dir: use a result cache there; rows: restrict the table to these row positions."""
     from mxlpy import mc, scan
+    from mxlpy.parallel import Cache
 
     kind = case["kind"]
     tab = _table(case)
+    if rows is not None:
+        tab = tab.iloc[list(rows)]
+    ck = {"cache": Cache(tmp_dir=cache_dir)} if cache_dir is not None else {}
     integ = _integrator(case)
     y0 = dict(case["y0"]) if case.get("y0") else None
     tp = np.array(case.get("time_points", [0.0, 1.0]), dtype=float)
@@ -57,26 +62,26 @@ def run_scan(case: dict, model, sched: dict):  # noqa: ANN001, ANN201
         simpool.install(simpool.PoolPlan(workers=sched["W"], seed=sched["seed"], die_tasks=tuple(sched.get("die", ()))))
     try:
         if kind == "scan.steady_state":
-            return scan.steady_state(model, to_scan=tab, y0=y0, parallel=par, integrator=integ, rel_norm=False)
+            return scan.steady_state(model, to_scan=tab, y0=y0, parallel=par, integrator=integ, rel_norm=False, **ck)
         if kind == "scan.time_course":
-            return scan.time_course(model, to_scan=tab, time_points=tp, y0=y0, parallel=par, integrator=integ)
+            return scan.time_course(model, to_scan=tab, time_points=tp, y0=y0, parallel=par, integrator=integ, **ck)
         if kind == "scan.protocol":
-            return scan.protocol(model, to_scan=tab, protocol=_protocol(case), time_points_per_step=case.get("tpps", 3), y0=y0, parallel=par, integrator=integ)
+            return scan.protocol(model, to_scan=tab, protocol=_protocol(case), time_points_per_step=case.get("tpps", 3), y0=y0, parallel=par, integrator=integ, **ck)
         if kind == "scan.protocol_time_course":
-            return scan.protocol_time_course(model, to_scan=tab, protocol=_protocol(case), time_points=tp, y0=y0, parallel=par, integrator=integ)
+            return scan.protocol_time_course(model, to_scan=tab, protocol=_protocol(case), time_points=tp, y0=y0, parallel=par, integrator=integ, **ck)
         if kind == "mc.steady_state":
-            return mc.steady_state(model, mc_to_scan=tab, y0=y0, max_workers=sched["W"], integrator=integ)
+            return mc.steady_state(model, mc_to_scan=tab, y0=y0, max_workers=sched["W"], integrator=integ, **ck)
         if kind == "mc.time_course":
-            return mc.time_course(model, time_points=tp, mc_to_scan=tab, y0=y0, max_workers=sched["W"], integrator=integ)
+            return mc.time_course(model, time_points=tp, mc_to_scan=tab, y0=y0, max_workers=sched["W"], integrator=integ, **ck)
         if kind == "mc.protocol":
-            return mc.protocol(model, protocol=_protocol(case), mc_to_scan=tab, y0=y0, time_points_per_step=case.get("tpps", 3), max_workers=sched["W"], integrator=integ)
+            return mc.protocol(model, protocol=_protocol(case), mc_to_scan=tab, y0=y0, time_points_per_step=case.get("tpps", 3), max_workers=sched["W"], integrator=integ, **ck)
         if kind == "mc.protocol_time_course":
-            return mc.protocol_time_course(model, protocol=_protocol(case), time_points=tp, mc_to_scan=tab, y0=y0, max_workers=sched["W"], integrator=integ)
+            return mc.protocol_time_course(model, protocol=_protocol(case), time_points=tp, mc_to_scan=tab, y0=y0, max_workers=sched["W"], integrator=integ, **ck)
         if kind == "mc.scan_steady_state":
             import pandas as pd
 
             inner = pd.DataFrame({case["inner"]["column"]: [float(v) for v in case["inner"]["values"]]})
-            return mc.scan_steady_state(model, to_scan=inner, mc_to_scan=tab, y0=y0, max_workers=sched["W"], integrator=integ)
+            return mc.scan_steady_state(model, to_scan=inner, mc_to_scan=tab, y0=y0, max_workers=sched["W"], integrator=integ, **ck)
         raise HarnessError(kind)
     finally:
         if par:
@@ -178,8 +183,24 @@ class Exec:
             w = sched["W"]
             self.counters["rows<W" if n < w else ("rows=W" if n == w else "rows>W")] += 1
         model = models.scan_model(case["model"])
+        cache_dir = None
+        if case.get("cache_prefill") is not None and self.labclass == "labels:unique":
+            import os
+            import shutil
+            from pathlib import Path
+
+            # a result cache that an earlier scan over SOME of the rows has partly filled
+            cache_dir = Path(os.environ.get("SIMKIT_SCRATCH") or "/tmp") / "scancache" / f"{os.getpid()}-{self.i}-{id(self) % 100000}"  # noqa: S108
+            shutil.rmtree(cache_dir, ignore_errors=True)
+            pre = [j for j in case["cache_prefill"] if j < n]
+            self.counters["schedule_with_partly_filled_cache"] += 1
+            try:
+                if pre:
+                    run_scan(case, models.scan_model(case["model"]), sched, cache_dir=cache_dir, rows=pre)
+            except Exception:  # noqa: BLE001
+                cache_dir = None
         try:
-            res = run_scan(case, model, sched)
+            res = run_scan(case, model, sched, cache_dir=cache_dir)
         except HarnessError:
             raise
         except Exception as e:  # noqa: BLE001
@@ -210,6 +231,10 @@ class Exec:
                         return None
                 views[view] = val
         self.trace.add("scan", sched, digest_of(canon(views["variables"])), digest_of(canon(views["fluxes"])))
+        if cache_dir is not None:
+            import shutil
+
+            shutil.rmtree(cache_dir, ignore_errors=True)
         self.check_rows(views, mode)
         return views
 
@@ -441,6 +466,9 @@ def gen_case(rng: SimRng, tier: str, avoid: dict) -> dict:  # noqa: ARG001, C901
     r.shuffle(scheds)
     case["schedules"] = scheds
     case["reads"] = {"order": r.choice(["vf", "fv"]), "twice": r.random() < 0.4}
+    if r.random() < 0.2 and len(rows) >= 2 and not poison and model != "S3":
+        k = r.randint(1, len(rows) - 1)
+        case["cache_prefill"] = sorted(r.sample(range(len(rows)), k))
     return case
 
 
